@@ -79,7 +79,7 @@ def main():
     laws = []
     n = 150 if quick else 2000
     for kind in ("PJ", "AT", "TB"):
-        for man in ("sphere", "torus", "plane", "circle"):
+        for man in ("sphere", "torus", "plane", "circle", "smallsphere"):
             for (delta, lam, tol) in ([(0.05, 2.0, 1e-4)] if quick else [(0.05, 2.0, 1e-4), (0.2, 1.5, 1e-3), (0.02, 3.0, 1e-6)]):
                 laws.append("LAWS %s %s %d %d %g %g %g" % (kind, man, n, rng.randint(1, 10 ** 6), delta, lam, tol))
     for kind in ("PJ", "AT", "TB"):
@@ -102,7 +102,7 @@ def main():
         else: pred(l, "no observation: " + out[:100])
     if len(outs) < len(laws): pred(laws[len(outs)], "driver crashed or hung (exit %s)" % rc)
     c.cov.update({"evaluations": len(cases) + len(laws) * n, "traces_validated_against_impl": len(cases), "distinct_nontrivial": stats["states"],
-                  "rule": "(a) %d geodesics on the plane x2 = 0 in R^3: tolerance 1e-8..1e-2, delta .02-.5, lambda 1-5, interpolate on/off, end points on / slightly off the manifold, at the delta boundary, across the invalid slab, coincident; verdict and every state compared bit for bit; (b) projected / atlas / tangent-bundle spaces x {sphere, torus (numerical Jacobian), plane, circle of co-dimension 2} x %d random pairs per setting: uniform, near and Gaussian samples, interpolate at t = 0, .1, ..., 1, discreteGeodesic, plus RRTConnect / PRM / RRT paths" % (len(cases), n),
+                  "rule": "(a) %d geodesics on the plane x2 = 0 in R^3: tolerance 1e-8..1e-2, delta .02-.5, lambda 1-5, interpolate on/off, end points on / slightly off the manifold, at the delta boundary, across the invalid slab, coincident; verdict and every state compared bit for bit; (b) projected / atlas / tangent-bundle spaces x {sphere, sphere of radius 0.1 (sampling distances larger than the curvature radius), torus (numerical Jacobian), plane, circle of co-dimension 2} x %d random pairs per setting: uniform, near and Gaussian samples, interpolate at t = 0, .1, ..., 1, discreteGeodesic, plus RRTConnect / PRM / RRT paths" % (len(cases), n),
                   "disagreements": ndiff, "predicate_failures": npred, "histogram": dict(stats)})
     c.cov["samples"] = [lines[0][:200], laws[0]]
     c.cov["trusted_base"] += ["vm_compute on primitive binary64 floats, float printing / parsing, harness/constraint_driver.cpp (its own evaluation of the constraint functions), g++ -ffp-contract=off",
